@@ -336,7 +336,7 @@ static long ns_prev_req = -2, ns_prev_wait;
 int nanosleep(const struct timespec* a, struct timespec* b) {
   long req = (long) (a->tv_sec * 1000 + a->tv_nsec / 1000000); int e;
   if (ns_prev_req != -2 && atomic_load(&armed) && !quiet_depth) {
-    if (req > ns_prev_req - ns_prev_wait + 2)
+    if (req > (ns_prev_req > ns_prev_wait ? ns_prev_req - ns_prev_wait : 0) + 2)
       VIOL("eintr-timeout-not-reduced", "nanosleep(%ld ms) was interrupted after %ld ms and re-issued for %ld ms", ns_prev_req, ns_prev_wait, req);
     ns_prev_req = -2;
   }
@@ -355,8 +355,9 @@ int nanosleep(const struct timespec* a, struct timespec* b) {
   if (e) { errno = e; return -1; }
   return RAW(SYS_nanosleep, a, b);
 }
-int fsync(int fd) { INJ(S_fsync, fd); return RAW(SYS_fsync, fd); }
-int fdatasync(int fd) { INJ(S_fdatasync, fd); return RAW(SYS_fdatasync, fd); }
+/* durability has no observable effect here, and a real fsync takes seconds on a busy disk: succeed without the kernel */
+int fsync(int fd) { INJ(S_fsync, fd); return RAW(SYS_fcntl, fd, F_GETFD) < 0 ? -1 : 0; }
+int fdatasync(int fd) { INJ(S_fdatasync, fd); return RAW(SYS_fcntl, fd, F_GETFD) < 0 ? -1 : 0; }
 int ftruncate(int fd, off_t n) { INJ(S_ftruncate, fd); return RAW(SYS_ftruncate, fd, n); }
 /* fs.c looks preadv64/pwritev64 up with dlsym(RTLD_DEFAULT): the harness is linked with -rdynamic */
 ssize_t preadv(int fd, const struct iovec* v, int n, off_t o) { INJ(S_preadv, fd); return RAW(SYS_preadv, fd, v, n, o, 0); }
@@ -596,14 +597,16 @@ static unsigned csum(unsigned s, const char* p, size_t n) { while (n--) s = s * 
 static struct { uv_timer_t *t1, *t2, *t3; uint64_t t0; int n3; uv_idle_t* idle; uv_prepare_t* prep; uv_check_t* chk; uv_async_t* as; int n1, n2, ni, np, nc, na; } tm;
 static void tm_async(uv_async_t* a) { (void) a; tm.na++; OUT("T timers t1=%d t2=%d t3=%d idle=%d async=%d prepare>0=%d check>0=%d", tm.n1, tm.n2, tm.n3, tm.ni, tm.na, tm.np > 0, tm.nc > 0); bail(); }
 static void tm_t1(uv_timer_t* t) { (void) t; tm.n1++; }
-static void tm_t2(uv_timer_t* t) { if (++tm.n2 == 3) A("uv_timer_stop", uv_timer_stop(t)); }
+/* the scenario ends when the repeating timer has fired 3 times (it stops itself from its own 3rd callback) AND the far
+ * timer has fired, whichever happens last: the transcript counts callbacks, never what fits into a real-time window */
+static void tm_t2(uv_timer_t* t) { if (++tm.n2 == 3) { A("uv_timer_stop", uv_timer_stop(t)); if (tm.n3) A("uv_async_send", uv_async_send(tm.as)); } }
 static void tm_t3(uv_timer_t* t) {       /* the far timer: due TM_FAR ms after the start, whatever interrupts the poll */
   long ms = (long) ((uv_hrtime() - tm.t0) / 1000000); (void) t;
   tm.n3++;
   OUT("I far timer fired after %ld ms", ms);
   if (ms < TM_FAR - 1) VIOL("timer-early", "%d ms timer fired after %ld ms", TM_FAR, ms);
   if (ms > TM_FAR + LATE_SLACK_MS) VIOL("timer-late", "%d ms timer fired after %ld ms", TM_FAR, ms);
-  A("uv_async_send", uv_async_send(tm.as));
+  if (tm.n2 >= 3) A("uv_async_send", uv_async_send(tm.as));
 }
 static void tm_idle(uv_idle_t* h) { if (++tm.ni == 2) uv_idle_stop(h); }
 static void tm_prep(uv_prepare_t* h) { (void) h; tm.np++; }
@@ -887,13 +890,14 @@ static int fs_result(uv_fs_t* rq) {
   }
   return 0;
 }
+static void fs_drop_dir(void);
 static void fs_next(uv_fs_t* done) {
   for (;;) {
     uv_fs_t* rq; int r;
     if (done != NULL) {
       int stop = fs_result(done); uv_fs_req_cleanup(done); free(done); done = NULL;
       if (!stop && FS_OP == 8) fsx.fd = -1;
-      if (stop) { if (fsx.fd > 0) { RAW(SYS_close, fsx.fd); fsx.fd = -1; } bail(); return; }
+      if (stop || bailed) { if (fsx.fd > 0) { RAW(SYS_close, fsx.fd); fsx.fd = -1; } fs_drop_dir(); if (!bailed) bail(); return; }
       fsx.step++;
     }
     rq = NEW(uv_fs_t);
